@@ -923,19 +923,8 @@ theorem isUnrolled_none_mono (g : Graph) (s s' : State) (hh : ∀ x, x ∈ s'.hi
       refine ⟨?_, by rw [hid]; exact hc.2⟩
       obtain ⟨e, he, hec⟩ := List.mem_map.mp hc.1
       have h1 := ((mem_vis_edges g s f e).2).mp he
-      refine List.mem_map.mpr ⟨e, ((mem_vis_edges g s' f e).2).mpr ⟨h1.1, ?_, ?_⟩, hec⟩
-      · cases hcx : s'.hidden.contains f
-        · rfl
-        · have := hh f (by simpa using hcx)
-          have h2 := h1.2.1
-          simp at h2
-          exact absurd this h2
-      · cases hcx : s'.hidden.contains e.1
-        · rfl
-        · have := hh e.1 (by simpa using hcx)
-          have h2 := h1.2.2
-          simp at h2
-          exact absurd this h2
+      exact List.mem_map.mpr ⟨e, ((mem_vis_edges g s' f e).2).mpr ⟨h1.1, not_hidden_mono hh _ h1.2.1,
+        not_hidden_mono hh _ h1.2.2.1, not_hidden_mono hh _ h1.2.2.2⟩, hec⟩
 
 theorem Explored.mono {g : Graph} {s s' : State} (h : Explored g s) (hh : ∀ x, x ∈ s'.hidden → x ∈ s.hidden)
     (hi : ∀ x, x ∈ s.incompatible → x ∈ s'.incompatible) : Explored g s' := by
@@ -3252,7 +3241,7 @@ theorem reveal_explores (g : Graph) (hk : FlatKidsOK g) (s : State) (f w : Nat) 
       rw [List.mem_filter]
       refine ⟨?_, by rw [vis_nodeId]; exact hk f c hf hcm⟩
       obtain ⟨e, he, hec⟩ := List.mem_map.mp hcm
-      refine List.mem_map.mpr ⟨e, ((mem_vis_edges g _ f e).2).mpr ⟨he, ?_, ?_⟩, hec⟩
+      refine List.mem_map.mpr ⟨e, ((mem_vis_edges g _ f e).2).mpr ⟨he, ?_, ?_, ?_⟩, hec⟩
       · unfold reveal
         simp only [hl, Bool.false_eq_true, if_false]
         exact contains_filter_of_not_mem _ _ f hfh
@@ -3261,8 +3250,19 @@ theorem reveal_explores (g : Graph) (hk : FlatKidsOK g) (s : State) (f w : Nat) 
         apply contains_filter_of_neg
         rw [hec]
         have h3 := closeUp_sub g g.nodes.length _ c hc
-        simp only [Bool.not_eq_eq_eq_not, Bool.not_false, List.contains_iff_mem]
-        exact h3
+        have h4 : (closeUp g g.nodes.length
+            (((g.node f).cleanup.map (·.1)).filter (fun c => (g.node c).owner == some w))).contains c = true :=
+          List.contains_iff_mem.mpr h3
+        simp only [h4, Bool.not_true, Bool.false_and]
+      · -- the edge from the flat node to the leaf appears with the expansion
+        unfold reveal
+        simp only [hl, Bool.false_eq_true, if_false]
+        apply contains_filter_of_neg
+        rw [hec]
+        have h4 : ((((g.node f).cleanup.map (·.1)).filter (fun c => (g.node c).owner == some w)).map
+            (edgeCode g f)).contains (edgeCode g f c) = true :=
+          List.contains_iff_mem.mpr (List.mem_map.mpr ⟨c, hc, rfl⟩)
+        simp only [h4, Bool.not_true, Bool.and_false]
 
 
 theorem isUnrolled_some_none (gv : Graph) (s : State) (f w : Nat) (h : isUnrolled gv s f (some w) = true) :
@@ -3585,6 +3585,7 @@ structure LInv (g : Graph) (d : Nat → Nat) (w P : Nat) (s : State) : Prop wher
   head : (s.wd w).path.head? = some g.root
   vroot : s.hidden.contains g.root = false
   vflat : ∀ f, (g.node f).flat = true → s.hidden.contains f = false
+  vedge : ∀ f, (g.node f).flat = true → s.hidden.contains (edgeCode g g.root f) = false
   avail : ∀ f, f < g.nodes.length → unexpl g s f = true →
     dropped s w (false, (g.node g.root).cls, (g.node f).cls) = false
   low : ∀ f, f < g.nodes.length → unexpl g s f = true →
@@ -3633,7 +3634,8 @@ theorem unexpl_available (g : Graph) (d : Nat → Nat) (w P : Nat) (hz : LazyOK 
   obtain ⟨hflat, hsr⟩ := unexpl_flat g s f hu
   refine ⟨?_, ?_, ?_⟩
   · obtain ⟨e, he, hef⟩ := List.mem_map.mp (hz.underRoot f hf hflat hsr)
-    exact List.mem_map.mpr ⟨e, ((mem_vis_edges g s g.root e).2).mpr ⟨he, h.vroot, by rw [hef]; exact h.vflat f hflat⟩, hef⟩
+    exact List.mem_map.mpr ⟨e, ((mem_vis_edges g s g.root e).2).mpr ⟨he, h.vroot, by rw [hef]; exact h.vflat f hflat,
+      by rw [hef]; exact h.vedge f hflat⟩, hef⟩
   · rw [vis_relevant]; unfold relevant; rw [hflat]; rfl
   · have := h.avail f hf hu
     unfold dropped at this
@@ -3705,6 +3707,7 @@ theorem iter_lazy (g : Graph) (d : Nat → Nat) (hr : Ranked g d) (hsym : EdgeSy
     intro hwalk hhead havail hlow
     exact ⟨k.nodesLen.trans h.nodesLen, fun n hn => by rw [k.regsLen]; exact h.cls n hn, hwalk, hhead,
       by rw [k.hidden]; exact h.vroot, fun f hf => by rw [k.hidden]; exact h.vflat f hf,
+      fun f hf => by rw [k.hidden]; exact h.vedge f hf,
       fun f hfN hfu => havail f hfN (by rw [← hun]; exact hfu), fun f hfN hfu => hlow f hfN (by rw [← hun]; exact hfu)⟩
   rcases mj with m | j
   · -- a move
@@ -3861,7 +3864,8 @@ theorem linv_prepare (g : Graph) (d : Nat → Nat) (hz : LazyOK g) (w P : Nat) (
     simp only [Bool.and_eq_true, decide_eq_true_eq] at hb
     exact p8 (top s w) hlast hb.2.1 hb.2.2 (h.vflat _ (unexpl_flat g s _ hb.2.2).1)
   refine ⟨⟨by rw [p2]; exact h.nodesLen, fun n hn => by rw [p1]; exact h.cls n hn, by rw [p4]; exact h.walk,
-    by rw [p4]; exact h.head, hnc _ h.vroot, fun f hf => hnc _ (h.vflat f hf), ?_, ?_⟩, ?_, nU_mono g s _ p6 p7, ?_, ?_⟩
+    by rw [p4]; exact h.head, hnc _ h.vroot, fun f hf => hnc _ (h.vflat f hf),
+    fun f hf => hnc _ (h.vedge f hf), ?_, ?_⟩, ?_, nU_mono g s _ p6 p7, ?_, ?_⟩
   · intro f hfN hfu
     rw [dropped_of_regs s _ p1]
     exact h.avail f hfN (hmono f hfu)
@@ -3940,7 +3944,7 @@ theorem linv_setLoop {g : Graph} {d : Nat → Nat} {w P : Nat} {s : State} (h : 
   have hun : ∀ f, unexpl g (s.setWd w (fun d => { d with pc := .loop })) f = unexpl g s f :=
     fun f => unexpl_congr g s _ rfl rfl f
   have hnU : nU g (s.setWd w (fun d => { d with pc := .loop })) = nU g s := nU_congr g s _ rfl rfl
-  refine ⟨⟨h.nodesLen, h.cls, by rw [hp]; exact h.walk, by rw [hp]; exact h.head, h.vroot, h.vflat, ?_, ?_⟩, ?_⟩
+  refine ⟨⟨h.nodesLen, h.cls, by rw [hp]; exact h.walk, by rw [hp]; exact h.head, h.vroot, h.vflat, h.vedge, ?_, ?_⟩, ?_⟩
   · intro f hfN hfu
     rw [dropped_setWd]; exact h.avail f hfN (by rw [← hun]; exact hfu)
   · intro f hfN hfu
@@ -4018,12 +4022,13 @@ structure LState (g : Graph) (d : Nat → Nat) (w : Nat) (s : State) : Prop wher
   head : (s.wd w).path.head? = some g.root
   vroot : s.hidden.contains g.root = false
   vflat : ∀ f, (g.node f).flat = true → s.hidden.contains f = false
+  vedge : ∀ f, (g.node f).flat = true → s.hidden.contains (edgeCode g g.root f) = false
   avail : ∀ f, f < g.nodes.length → unexpl g s f = true →
     dropped s w (false, (g.node g.root).cls, (g.node f).cls) = false
 
 theorem LState.linv {g : Graph} {d : Nat → Nat} {w : Nat} {s : State} (h : LState g d w s) :
     LInv g d w (pickLevel g s) s :=
-  ⟨h.nodesLen, h.cls, h.walk, h.head, h.vroot, h.vflat, h.avail, fun f hfN _ => Or.inl (by
+  ⟨h.nodesLen, h.cls, h.walk, h.head, h.vroot, h.vflat, h.vedge, h.avail, fun f hfN _ => Or.inl (by
     unfold pickLevel
     have := le_sum_of_mem (List.range g.nodes.length) (fun f => picks s (g.node f).cls) f (List.mem_range.mpr hfN)
     omega)⟩
@@ -4042,13 +4047,14 @@ theorem runLoop_terminates_lazy (g : Graph) (d : Nat → Nat) (hr : Ranked g d) 
 theorem lstate_init (g : Graph) (d : Nat → Nat) (ncls : Nat) (store : List (String × List (String × String)))
     (hidden : List Nat) (hcls : ∀ n, n < g.nodes.length → (g.node n).cls < ncls)
     (hroot : hidden.contains g.root = false) (hflat : ∀ f, (g.node f).flat = true → hidden.contains f = false)
+    (hedge : ∀ f, (g.node f).flat = true → hidden.contains (edgeCode g g.root f) = false)
     (w : Nat) (hw : w < g.workers.length) : LState g d w (initState g ncls store hidden) := by
   have hwd : (initState g ncls store hidden).wd w = { path := [g.root] } := by
     unfold initState State.wd
     simp only [List.getD_eq_getElem?_getD, List.getElem?_map, List.getElem?_eq_getElem hw]
     rfl
   refine ⟨by simp [initState], clsOK_init g ncls store hidden hcls, by rw [hwd]; exact walk_root g d g.root,
-    by rw [hwd]; rfl, hroot, hflat, ?_⟩
+    by rw [hwd]; rfl, hroot, hflat, hedge, ?_⟩
   intro f _ _
   unfold dropped State.cr initState
   simp only [Bool.false_eq_true, if_false, List.getD_eq_getElem?_getD, List.getElem?_map]
@@ -4136,9 +4142,10 @@ def tracePaths (g : Graph) (w : Nat) : Nat → State → List (List Nat)
 def AvW (g : Graph) (w : Nat) (s : State) : Prop :=
   ∀ f, f < g.nodes.length → unexpl g s f = true → dropped s w (false, (g.node g.root).cls, (g.node f).cls) = false
 
-/-- the root and the flat nodes are parsed -/
+/-- the root and the flat nodes are parsed, and the flat nodes hang below the root -/
 def HidOK (g : Graph) (s : State) : Prop :=
-  s.hidden.contains g.root = false ∧ ∀ f, (g.node f).flat = true → s.hidden.contains f = false
+  s.hidden.contains g.root = false ∧ (∀ f, (g.node f).flat = true → s.hidden.contains f = false) ∧
+  ∀ f, (g.node f).flat = true → s.hidden.contains (edgeCode g g.root f) = false
 
 theorem HidOK.mono {g : Graph} {s s' : State} (h : HidOK g s) (hh : ∀ x, x ∈ s'.hidden → x ∈ s.hidden) : HidOK g s' := by
   have key : ∀ x, s.hidden.contains x = false → s'.hidden.contains x = false := by
@@ -4147,7 +4154,7 @@ theorem HidOK.mono {g : Graph} {s s' : State} (h : HidOK g s) (hh : ∀ x, x ∈
     · rfl
     · have := hh x (List.contains_iff_mem.mp hc)
       rw [List.contains_iff_mem.mpr this] at hx; cases hx
-  exact ⟨key _ h.1, fun f hf => key _ (h.2 f hf)⟩
+  exact ⟨key _ h.1, fun f hf => key _ (h.2.1 f hf), fun f hf => key _ (h.2.2 f hf)⟩
 
 /-- a piece of a step whose new drops of `w` concern the class of a node that is not an unexplored flat node afterwards -/
 theorem avW_of_loc {g : Graph} (hz : LazyOK g) {w : Nat} {s s' : State} (n : Nat) (hn : n < g.nodes.length)
@@ -4239,7 +4246,7 @@ theorem iterL_av (g : Graph) (d : Nat → Nat) (hr : Ranked g d) (hsym : EdgeSym
         cases hu : unexpl g (prepare g s w) (top s w)
         · rfl
         · have hu0 := unexpl_mono g s _ p6 p7 _ hu
-          rw [p8 (top s w) hl htN hu0 (hhid.2 _ (unexpl_flat g s _ hu0).1)] at hu
+          rw [p8 (top s w) hl htN hu0 (hhid.2.1 _ (unexpl_flat g s _ hu0).1)] at hu
           cases hu
       have hav1 : AvW g w (prepare g s w) := avW_of_same p6 p7 (fun k => dropped_of_regs s _ p1 w k) hav
       obtain ⟨pa, pb, pc⟩ := prepare_loc (D := DT) g s w
@@ -4429,10 +4436,11 @@ theorem reachable_zinv {g : Graph} {d : Nat → Nat} (hr : Ranked g d) (hsym : E
     {store : List (String × List (String × String))} {hidden : List Nat}
     (hcls : ∀ n, n < g.nodes.length → (g.node n).cls < ncls)
     (hroot : hidden.contains g.root = false) (hflat : ∀ f, (g.node f).flat = true → hidden.contains f = false)
+    (hedge : ∀ f, (g.node f).flat = true → hidden.contains (edgeCode g g.root f) = false)
     {s : State} (h : ReachableL g ncls store hidden s) : ZInv g d s := by
   induction h with
   | init =>
-    refine ⟨tinv_init g d ncls store hidden hcls, ⟨hroot, hflat⟩, fun u f _ _ => ?_⟩
+    refine ⟨tinv_init g d ncls store hidden hcls, ⟨hroot, hflat, hedge⟩, fun u f _ _ => ?_⟩
     unfold dropped State.cr initState
     simp only [Bool.false_eq_true, if_false, List.getD_eq_getElem?_getD, List.getElem?_map]
     cases (List.range ncls)[(g.node g.root).cls]? <;> rfl
@@ -4445,15 +4453,16 @@ theorem reachable_lstate {g : Graph} {d : Nat → Nat} (hr : Ranked g d) (hsym :
     {store : List (String × List (String × String))} {hidden : List Nat}
     (hcls : ∀ n, n < g.nodes.length → (g.node n).cls < ncls)
     (hroot : hidden.contains g.root = false) (hflat : ∀ f, (g.node f).flat = true → hidden.contains f = false)
+    (hedge : ∀ f, (g.node f).flat = true → hidden.contains (edgeCode g g.root f) = false)
     {s : State} (h : ReachableL g ncls store hidden s) (w : Nat) (hw : w < g.workers.length)
     (hnd : (s.wd w).pc ≠ .done) : LState g d w s := by
-  have hzi := reachable_zinv (d := d) hr hsym hz hcls hroot hflat h
+  have hzi := reachable_zinv (d := d) hr hsym hz hcls hroot hflat hedge h
   have hp := h.reachableF.pinv hsym
   have hhead : (s.wd w).path.head? = some g.root := by
     rcases hp.path w (by rw [hp.wlen]; exact hw) with h1 | h1
     · exact absurd h1.2 hnd
     · exact h1.head
-  exact ⟨hzi.tinv.nodesLen, hzi.tinv.cls, hzi.tinv.walk w, hhead, hzi.hid.1, hzi.hid.2, hzi.av w⟩
+  exact ⟨hzi.tinv.nodesLen, hzi.tinv.cls, hzi.tinv.walk w, hhead, hzi.hid.1, hzi.hid.2.1, hzi.hid.2.2, hzi.av w⟩
 
 
 end I2N.Trav.Term
